@@ -22,7 +22,7 @@ type boundedCheck struct {
 	What   string
 	Bound  map[string]string // tier -> stated bound
 	N      map[string]int    // tier -> number of generated inputs
-	Src    string            // in-package test; reads the input count from LVC_BOUNDED_N
+	Src    string            // in-package test; __N__ is replaced by the input count
 }
 
 var boundedChecks = map[string][]*boundedCheck{
@@ -40,14 +40,12 @@ var boundedChecks = map[string][]*boundedCheck{
 import (
 	"math"
 	"math/rand"
-	"os"
-	"strconv"
 	"testing"
 	"time"
 )
 
-func TestLvcBounded(t *testing.T) {
-	n, _ := strconv.Atoi(os.Getenv("LVC_BOUNDED_N"))
+func TestLvcReplay(t *testing.T) {
+	n := __N__
 	count := 0
 	chk := func(d time.Duration) {
 		for _, frac := range []bool{false, true} {
@@ -92,18 +90,18 @@ func (P *Program) runBounded(prop, tier, replayDir string) ([]map[string]any, []
 	for _, b := range boundedChecks[prop] {
 		os.MkdirAll(replayDir, 0o755)
 		base := safeFile(b.Name)
-		testPath := filepath.Join(replayDir, base+"_bounded_test.go")
-		os.WriteFile(testPath, []byte(b.Src), 0o644)
-		pkgDir := filepath.Join(P.Repo, b.PkgDir)
-		ov := map[string]any{"Replace": map[string]string{filepath.Join(pkgDir, "zz_lvc_bounded_test.go"): testPath}}
-		ovData, _ := json.Marshal(ov)
-		ovPath := filepath.Join(replayDir, base+"_overlay.json")
-		os.WriteFile(ovPath, ovData, 0o644)
 		n := b.N[tier]
 		if n == 0 {
 			n = b.N["quick"]
 		}
-		cmdline := fmt.Sprintf("cd %q && LVC_BOUNDED_N=%d go test -overlay %q -vet=off -count=1 -timeout 600s -run '^TestLvcBounded$' -v .", pkgDir, n, ovPath)
+		testPath := filepath.Join(replayDir, base+"_replay_test.go")
+		os.WriteFile(testPath, []byte(strings.ReplaceAll(b.Src, "__N__", fmt.Sprint(n))), 0o644)
+		pkgDir := filepath.Join(P.Repo, b.PkgDir)
+		ov := map[string]any{"Replace": map[string]string{filepath.Join(pkgDir, "zz_lvc_replay_test.go"): testPath}}
+		ovData, _ := json.Marshal(ov)
+		ovPath := filepath.Join(replayDir, base+"_overlay.json")
+		os.WriteFile(ovPath, ovData, 0o644)
+		cmdline := fmt.Sprintf("cd %q && go test -overlay %q -vet=off -count=1 -timeout 600s -run '^TestLvcReplay$' -v .", pkgDir, ovPath)
 		cmd := exec.Command("bash", "-c", "ulimit -v 8000000; "+cmdline)
 		cmd.Env = append(os.Environ(), "GOFLAGS=", "GOPROXY=off", "GOSUMDB=off", "GOTOOLCHAIN=local")
 		start := time.Now()
